@@ -65,7 +65,17 @@ def register_host_type(t) -> None:
         HOST_TYPES = HOST_TYPES + (t,)
 
 
+_HOST_BUILTINS = {'builtins.str': str, 'builtins.int': int, 'builtins.float': float, 'builtins.bool': bool}
+
+
 def to_host_index(idx):
+    if isinstance(idx, Ext) and idx.name in _HOST_BUILTINS:
+        return _HOST_BUILTINS[idx.name]
+    if isinstance(idx, Ext) and idx.name.startswith('numpy.') and idx.name.count('.') == 1:
+        import numpy
+        t = getattr(numpy, idx.name[6:], None)
+        if isinstance(t, type):
+            return t
     if isinstance(idx, SliceV):
         return slice(idx.lo, idx.hi, idx.step)
     if isinstance(idx, tuple):
@@ -235,7 +245,9 @@ def _contains_top(v, depth=0) -> bool:
 def _is_abstract(v) -> bool:
     if HOST_TYPES and isinstance(v, HOST_TYPES):
         return False
-    return not isinstance(v, _CONCRETE)
+    if isinstance(v, _CONCRETE):
+        return False
+    return type(v).__module__ != 'builtins' or callable(v)
 
 
 class Hooks:
@@ -524,6 +536,11 @@ class Interp:
             return r
         if v is TOP:
             return [TOP]
+        if HOST_TYPES and isinstance(v, HOST_TYPES):
+            try:
+                return list(v)
+            except TypeError:
+                return [TOP]
         if isinstance(v, dict):
             return list(v.keys())
         if isinstance(v, (list, tuple, set, frozenset, str, range)):
@@ -532,6 +549,8 @@ class Interp:
             return list(v)
         if isinstance(v, (enumerate, zip, reversed, map, filter)) or hasattr(v, '__next__'):
             return list(v)
+        if type(v).__module__ == 'builtins' and hasattr(v, '__iter__'):
+            return list(v)          # dict views etc.
         return [TOP]
 
     def _for(self, s: ast.For, env: Env) -> None:
@@ -623,6 +642,11 @@ class Interp:
                 return
             if isinstance(obj, Obj):
                 obj.fields[t.attr] = v
+            elif hasattr(obj, 'pqv_setattr'):
+                try:
+                    obj.pqv_setattr(t.attr, v)
+                except AttributeError:
+                    raise Unsupported(t, f'attribute store {t.attr} on {type(obj).__name__}')
         elif isinstance(t, ast.Starred):
             self.assign(t.value, v, env)
         else:
@@ -1238,6 +1262,13 @@ class Interp:
         h = getattr(v, 'pqv_isinstance', None)
         if h is not None:
             return h(types)
+        if HOST_TYPES and isinstance(v, HOST_TYPES):
+            tn = type(v).__name__
+            for x in types:
+                if isinstance(x, Ext) and x.name.split('.')[-1] == tn:
+                    return True
+            if all(isinstance(x, (Ext, ClassRef)) for x in types):
+                return False
         return TOP
 
 
